@@ -928,8 +928,21 @@ class SigmaCIDRExpression(NoPlainConversionMixin, SigmaType):
                     patterns.append(
                         str(subnet_v6)[:i] + wildcard
                     )  # Generate pattern by cutting of at first difference
-                else:  # The /128 case - single address, use network_address not network (avoid "::1/128" literal)
+                elif (
+                    subnet_v6.prefixlen == 128
+                ):  # The /128 case - single address, use network_address not network (avoid "::1/128" literal)
                     patterns.append(str(subnet_v6.network_address))
+                else:  # The first address is a textual prefix of the last one (e.g. fe80:: and fe80::ff): all addresses either start with it or don't compress the zero groups of the prefix.
+                    patterns.append(first_addr + wildcard)
+                    prefix_groups = subnet_v6.network_address.exploded.split(":")[
+                        : subnet_v6.prefixlen // 16
+                    ]
+                    if prefix_groups:
+                        patterns.append(
+                            ":".join(format(int(group, 16), "x") for group in prefix_groups)
+                            + ":"
+                            + wildcard
+                        )
         return patterns
 
 
